@@ -77,10 +77,13 @@ Example C10_nonvacuous :
   let f14 := run (init Incoming TP) [Accept; InitRead IEof; CloseDone; AcceptReturns] in
   let f15 := run (init Outgoing TP) [Create; ConnectStart; Cancel] in
   let n1 := run (init Outgoing TP) [Create; ConnectStart; Disconnect RRequested; ConnectOk; SendInit SOk; ReaderGets XMsg; Send SOk] in
+  let wf := run (init Outgoing TP) [Create; ConnectStart; ConnectOk; SendInit SOk; QSend SFail; DetachedRun; CloseDone] in
   (reported o = [CONNECTING; CONNECTED; CLOSING; CLOSED] /\ delivered o = 1 /\ quiescent o = true /\ in_reg o = false) /\
   (reported i = [CONNECTED; CLOSING; CLOSED] /\ delivered i = 1 /\ quiescent i = true) /\
   (reported s = [CONNECTING; CONNECTED; CLOSING; CLOSED; CONNECTING; CONNECTED]) /\
   (reported f14 = [CONNECTED; CLOSING; CLOSED] /\ quiescent f14 = true /\ in_reg f14 = false) /\
   (reported f15 = [CONNECTING; CLOSING; CLOSED] /\ quiescent f15 = true /\ in_reg f15 = false /\ res f15 = ResCancelled) /\
-  (reported n1 = [CONNECTING; CLOSING; CLOSED] /\ delivered n1 = 0 /\ sent n1 = 0 /\ writer n1 = WNone /\ res n1 = ResFail).
+  (reported n1 = [CONNECTING; CLOSING; CLOSED] /\ delivered n1 = 0 /\ sent n1 = 0 /\ writer n1 = WNone /\ res n1 = ResFail) /\
+  (* a failed (queued) write: _send closes the connection from a detached, shielded task *)
+  (reported wf = [CONNECTING; CONNECTED; CLOSING; CLOSED] /\ quiescent wf = true /\ in_reg wf = false).
 Proof. vm_compute. repeat split. Qed.
